@@ -49,8 +49,11 @@ def bounds(fx, nreq=1, budget=1):
     T = fx['T']; sub = fx['opts'].get('sublimit') or 4
     per_round = min(T.nc, nreq + budget)
     B = max(per_round, sub, T.ounits, 1) + 1
-    U = max(T.ns, T.nc * sub, T.maxw, 8) + 2
-    uws = [(r'processTransitions|applyRequests|replayTransitions', B),   # initialEnter keeps the default: it also holds array fill loops
+    feats = fx['opts'].get('features', [])
+    tcap = (fx['opts'].get('taskcap') or T.compo_prongs * 2) if ('PLANS' in feats or 'ALL' in feats) else 0
+    U = max(T.ns, T.nc * sub, T.maxw, 8, tcap, T.nr) + 2
+    uws = [(r'replayTransitions|applyRequests|replayEnter', max(B, T.nc * sub + 1)),    # these also construct a TransitionSets array (NC*LIMIT items)
+           (r'processTransitions', B),   # initialEnter keeps the default: it also holds array fill loops
            (r'requestImmediate|isActive|isResumable|isPending|activeSubState|requestScheduled', T.maxdepth + 3),
            (r'^m_active|^uparent', T.maxdepth + 3)]
     return U, uws
